@@ -191,3 +191,14 @@ Proof.
   - exact (vec_equal_not_less_one L Hwf HL v1 v2 l1 l2 R1 R2 He).
   - apply (vec_equal_not_less_one L Hwf HL v2 v1 l2 l1 R2 R1). rewrite vec_equal_sym. exact He.
 Qed.
+
+Theorem vec_less_not_equal : forall L, wf_plist L = true -> L <> [] ->
+  forall v1 l1 v2 l2, Rep L v1 l1 -> Rep L v2 l2 ->
+  vec_less L v1 v2 = true -> vec_equal L v1 v2 = false /\ vec_equal L v2 v1 = false.
+Proof.
+  intros L Hwf HL v1 l1 v2 l2 R1 R2 Hlt.
+  assert (H : vec_equal L v1 v2 = false).
+  { destruct (vec_equal L v1 v2) eqn:E; [|reflexivity].
+    destruct (vec_equal_not_less L Hwf HL v1 l1 v2 l2 R1 R2 E) as [H _]. congruence. }
+  split; [exact H|]. rewrite vec_equal_sym. exact H.
+Qed.
